@@ -190,6 +190,20 @@ CLAIMED['C08'] = dict(
          'ensemble = classic sift) over nensembles x nprocesses x {single, flip} x noise levels, plus exact integer toy-generator runs.',
     note=NOTE + ' The OS scheduler is sampled (nprocesses 1..8), not enumerated: the model is fed the schedule the harness observed. Members with different column counts (IndexError in ensemble_sift) are discarded and counted.')
 
+CLAIMED['C02'] = dict(
+    technique='Coq proof of ONE equivariance theorem for the abstract extraction loop / outer loop / masked extraction (any map sigma commuting with the oracles), instantiated for scaling by c>0, c<0, sign flip and time reversal over the concrete integer extrema / padding / stop-rule models + exact and guarded differential oracle on real numerics (PARTIAL: IEEE bit-exactness not proved; one known finding)',
+    text='PARTIAL, with one KNOWN FINDING. Theorems (Prop_C02.v) prove, for every signal type and every map sigma that commutes with the signal '
+         'arithmetic and under which the envelope oracle is equivariant and the stop oracles invariant, that get_next_imf and the whole sift of '
+         'sigma(X) are sigma applied to those of X (every fuel, limit, method; threshold scaled with |c|), and the same for the masked extraction when '
+         'the mask set of sigma(X) is a permutation of sigma applied to that of X; the hypotheses are DISCHARGED for the concrete layer over integer '
+         'signals: strict extrema detection, odd-reflection padding, edge padding, the sd / Rilling / energy / threshold rules are equivariant under '
+         'scaling by any c <> 0 (upper and lower envelopes swap for c < 0) and under time reversal, and ratio mask amplitudes scale with |c| given '
+         'std(c x) = |c| std x; the mask set is closed under negation iff nphases is even (cos(t+pi) = -cos t). The interpolant contract (homogeneity, '
+         'knot reflection) is a trusted premise validated against scipy (5e-14). NOT PROVED: bit-for-bit equality for +-2^k (an IEEE fact about FITPACK/'
+         'PCHIP) - watched with np.array_equal. KNOWN FINDING C02-mask-neg-odd-nphases: for masked sifts, negative c and odd nphases the law is false of '
+         'the documented mask set (mask_scale_neg_odd_refuted); reported as KNOWN-FINDING on every run, not repaired.',
+    note=NOTE + ' Arbitrary non-dyadic factors and reversal are compared within 1e-9 under a measured guard band (near-tie extrema, stop metrics within 1e-6 of threshold, zero-crossing counts on exact zeros are discarded and counted).')
+
 _PENDING = 'check under construction in this session (model/theorem/correspondence not all in place yet); not claimed until they are'
 NOT_CLAIMED = {('C%02d' % i): _PENDING for i in range(1, 21)}
 for _p in CLAIMED:
